@@ -175,6 +175,8 @@ func c10fileLevel(c *core.Ctx, i int) {
 		if h.closeAt >= 0 && h.closeAt-k >= 3 {
 			c.Count("retained-across-3-records", 1)
 		}
+		// the holder appends in place: the spare capacity of its slices is written to
+		c.Count("spare-capacity-bytes-written", int64(scribbleSpareCapacity(h.val, 0)))
 		held = append(held, h)
 		k++
 		return nil
